@@ -59,6 +59,19 @@ def run(ctx):
         maximal = direct + queued
         for h in maximal:
             stim.append({"t": len(stim) + 1, "maxr": maxr, "at": 2, "steps": h})
+        # the same parameters as configured through the options (option plumbing): the library's own client
+        # (udp.Dial, options.WithTransmission) and a server-side connection of a real udp server, over loopback sockets
+        plain = [h for h in direct if all(a["a"] != "queue" for a in h)]
+        for mode in ("dial", "server"):
+            if mode == "server" and maxr == 0:
+                # a server-side connection is swept on every datagram of its peer (udp/server getConn), so with
+                # MAX_RETRANSMIT = 0 the exchange is "exhausted" (the code's notion: the first sweep that finds the counter
+                # at the maximum) by the very datagram that carries the answer - observation O2 in DESIGN.md, not judged
+                continue
+            pick = random.Random(ctx.seed * 13 + maxr + len(mode)).sample(plain, min(len(plain), 150 if thorough else 40))
+            for h in pick:
+                stim.append({"t": len(stim) + 1, "mode": mode, "maxr": maxr, "at": 2, "steps": h})
+            ctx.cov["histories_on_" + mode] = ctx.cov.get("histories_on_" + mode, 0) + len(pick)
     if not stim:
         raise vf.Machinery("no histories generated")
     spath = os.path.join(ctx.work, "stimuli.ndjson")
